@@ -11,7 +11,7 @@ LEVEL = "exploration"
 MANIFEST = dict(
     engine="E6-fluentshadow", engine_path="vlib/fluentshadow.py",
     kind="generated corpora of fluent programs over shared sources; name->computation descriptor map, determinism re-build, operand snapshots around every operation",
-    technique="runtime monitoring of the real fluent API: (1) over the union of 2-6 generated actions a map name -> (callable object, static args by value, input names) must be a function (two descriptors under one name = violation), then Cascade.from_actions/serialise/graph2job must keep every computation; (2) the same program built twice must give identical name arrays, in the same process and again in a fresh interpreter (names must not depend on what the process built before); (3) (dims, coords, names, attrs) of every live action are snapshotted before and compared after every operation, including binary operations whose operands carry different coordinate values and the size-1 no-op paths",
+    technique="runtime monitoring of the real fluent API: (1) over the union of 2-6 generated actions a map name -> (callable object, static args by value, input names) must be a function (two descriptors under one name = violation), then Cascade.from_actions/serialise/graph2job must keep every computation; (2) the same program built twice must give identical name arrays, in the same process and again in a fresh interpreter started with another PYTHONHASHSEED (names must depend neither on what the process built before nor on the interpreter's string-hash salt); (3) (dims, coords, names, attrs) of every live action are snapshotted before and compared after every operation, including binary operations whose operands carry different coordinate values and the size-1 no-op paths",
     text="Held = no name was shared by two different computations in any corpus, every rebuilt program had identical names, no snapshot of an earlier action changed after any later operation.",
     note="callable identity = the callable object (functools.partial: func+args+keywords); static arrays are compared by bytes; consequences (serialise assertion, lost tasks) are only checked for corpora whose names are injective.",
 )
@@ -328,7 +328,9 @@ def run_shard(spec, col: Collector):
     chosen = (pref + [i for i in late if i not in pref])[: spec.get("fresh_rebuilds", 3)]
     for i in chosen:
         try:
-            out = subprocess.run([PY, "-m", "vlib.checks.c14", str(seed), shard, str(i)], env=child_env(spec.get("hash_seed")), capture_output=True, text=True, timeout=120,
+            # another interpreter AND another string-hash seed: names must not depend on either
+            other_seed = (int(spec.get("hash_seed") or 0) + 7919 * (i + 1)) % 4294967295
+            out = subprocess.run([PY, "-m", "vlib.checks.c14", str(seed), shard, str(i)], env=child_env(other_seed), capture_output=True, text=True, timeout=120,
                                  cwd=os.path.dirname(os.path.dirname(os.path.dirname(os.path.abspath(__file__)))))
             line = [ln for ln in out.stdout.splitlines() if ln.startswith("NAMES ")]
             fresh = json.loads(line[-1][6:])
